@@ -10,7 +10,7 @@ PROP_FILES = ['Properties/C16']
 EXTRA_OBLIGATION_FILES = ['Proofs/AtomPanel', 'Proofs/LockOrder', 'Proofs/PanelLocks', 'Proofs/PanelWF', 'Proofs/PanelOwn',
                           'Proofs/PanelC16', 'Proofs/PanelRefute', 'Extract/C16']
 TRUSTED = [
-    'atomic steps of the hand-written model as GENERATED obligations (Proofs/AtomPanel.v, re-proved on every run about coq/Gen/Atomicity.v; in a private re-generated copy under VERIF_EXTRA_OVERLAY): tools/lockscan (go/ast, syntactic types) is trusted to list, per function of internal/{server,multiplex,common,client}, every field access / call / sync/atomic operation with the critical sections (Lock..Unlock / RLock..RUnlock / deferred unlock, mutex identity by name) it lies in, every sync.Pool.Put with the later mentions of the object, and every variable a go statement shares with its spawner (anything it cannot resolve is in atomicity_errors, which must be empty); it does not follow calls (a region is what one function writes between Lock and Unlock), does no alias analysis, treats callbacks as running with no lock held, and counts call sites, not executions (a loop around one call site is invisible)',
+    'atomic steps of the hand-written model as GENERATED obligations (Proofs/AtomPanel.v, re-proved on every run about coq/Gen/Atomicity.v; in a private re-generated copy under VERIF_EXTRA_OVERLAY): tools/lockscan (go/ast, syntactic types) is trusted to list, per function of internal/{server,multiplex,common,client}, every field access / call / sync/atomic operation with the critical sections (Lock..Unlock / RLock..RUnlock / deferred unlock, mutex identity by name) it lies in, every sync.Pool.Put with the later mentions of the object, and every variable a go statement shares with its spawner (anything it cannot resolve is in atomicity_errors, which must be empty); it does not follow calls (a region is what one function writes between Lock and Unlock), does no alias analysis, treats callbacks as running with no lock held, and counts call sites, not executions (a loop around one call site is invisible); who removes entries (AtomReplay/AtomPanel/AtomMux): the scanner distinguishes element stores (w), delete/clear (del), assignment of the whole field (set), address-of (addr) and the map being handed on as a value (val); a delete on a local map is recorded under the name of that local',
     'Coq 8.16.1 kernel incl. vm_compute; all C16 theorems: Closed under the global context',
     'hand-written LTS coq/Model/Panel.v with ghost ledgers (counted / charged / reported-for-deleted / admin changes); valve and queue counters are unbounded integers (int64 wrap is modelled only where UploadStatus subtracts: a counter would need 2^63 bytes to wrap); Nullify is one step, the updateUsageQueue loop is one step, commitUpdate reads the queue when it leaves its critical section (generated obligation C16_queue_guarded_by_queueM)',
     'correspondence: lock-step engine harness/server/c17_common_test.go + c16_test.go: real userPanel, real LimitedValves, real localManager on bolt, admin changes through the real API router; bytes are injected through the real switchboard (deplex -> AddRx, Stream.Write -> send -> AddTx) on in-memory connections that count what they carry (the wire tap the oracle uses); compared step by step (queue contents, stored credits, session states) with the extracted model (ocaml/c16_driver.ml); one run of the real regularQueueUpload loop on a 25 ms interval',
